@@ -65,7 +65,7 @@ def run_unit(A, unit, rep, tier):
         ok = True
         for u in ups:
             d = u["args"].get("data")
-            if d is None or not any(d == r or (r.kind == "phi" and d in r.args) or (d.kind == "phi" and r in d.args) for r in loader_rets):
+            if d is None or not any(d == r or (d.kind == "phi" and r in d.args) for r in loader_rets):
                 ok = False
                 rep.fail("C02.b", norm_key("C02.b", u.stack[-2][0] if len(u.stack) > 1 else lv.func.qualname, u.stmt),
                          f"the value merged by `{u.stmt}` is not the value returned by the loader on that path (got {show(d)[:80]})", [u.where() + ": " + u.stmt], g.label)
